@@ -18,7 +18,7 @@ CLAUSES = {
     'C11': {'item_dropped_while_injector_alive', 'item_of_current_stream_dropped_while_matcher_alive', 'item_dropped_while_snapshot_shows_it',
             'item_dropped_twice', 'item_leaked_or_invented'},
 }
-KNOWN_PROP = {'KF-C13-flag-read-before-arm': 'C13', 'KF-C13-notify-before-unlock': 'C13'}
+KNOWN_PROP = {}
 
 
 def explore(wd, shards, extra=None, cmd='nucleo-sched'):
